@@ -22,6 +22,7 @@ func main() {
 	length := flag.Int("len", 12, "")
 	scratch := flag.String("scratch", "", "")
 	salt := flag.Int64("salt", 0, "")
+	scripted := flag.Bool("scripted", false, "fixed histories: contract-controlled miners, partial refunds")
 	flag.Parse()
 	if *scratch == "" {
 		vutil.Fatalf("--scratch required")
@@ -34,6 +35,7 @@ func main() {
 	ledgerops.Rt = ledgerops.BuildRuntime()
 	execdrv.Boot(*scratch)
 	tr := vutil.NewTrace(outAbs)
+	tr.AutoFlush = os.Getenv("C06_FLUSH") != ""
 	nh, blocks := 0, 0
 	run := func(ops []ledgerops.AbsOp, pickAmount func(o ledgerops.AbsOp) (string, string)) {
 		w := ledgerops.NewWorld(nh)
@@ -65,14 +67,32 @@ func main() {
 			run(h, func(o ledgerops.AbsOp) (string, string) { return ledgerops.Amounts[o.V%3], "" })
 		}
 	}
+	if *scripted {
+		// miners whose account is a contract (stake opcodes with every amount class) and partial
+		// refunds of ordinary miners, as fixed histories
+		for v := 0; v < 7; v++ {
+			run([]ledgerops.AbsOp{{Op: "Deploy", A: 2, B: 3, V: 0}, {Op: "ConStake", A: 1, B: 3}, {Op: "ConUnstake", A: 1, B: 3, V: v},
+				{Op: "ConAddStake", A: 2, B: 3, V: v}, {Op: "ConUnstake", A: 3, B: 3, V: (v + 3) % 7}, {Op: "ConUnstakeAll", A: 1, B: 3},
+				{Op: "ConUnstake", A: 1, B: 3, V: v}},
+				func(o ledgerops.AbsOp) (string, string) { return []string{"0", "3"}[v%2], "" })
+		}
+		for v := 0; v < 9; v++ {
+			run([]ledgerops.AbsOp{{Op: "Stake", A: 1, V: v % 3}, {Op: "Stake", A: 2, V: 2}, {Op: "Refund", A: 1, V: v % 3}, {Op: "Refund", A: 2, V: (v / 3) % 3},
+				{Op: "Refund", A: 1, V: (v + 1) % 3}, {Op: "Refund", A: 1, V: 0}, {Op: "Refund", A: 2, V: 0}, {Op: "Refund", A: 2, V: 1}},
+				func(o ledgerops.AbsOp) (string, string) { return "0", "" })
+		}
+	}
 	rng := vutil.Rng(6 + 1000**salt)
-	kinds := []string{"Transfer", "Transfer", "Transfer", "Deploy", "EthForward", "EthStale", "SelfDestruct2", "StaleGas", "CallForward", "CallRevert", "SelfDestruct", "CallCreate", "Stake", "Refund", "Mature", "CallExplicit", "CallExplicit", "SelfDestructFunded"}
+	kinds := []string{"Transfer", "Transfer", "Transfer", "Deploy", "EthForward", "EthStale", "SelfDestruct2", "StaleGas", "CallForward", "CallRevert", "SelfDestruct", "CallCreate", "Stake", "Refund", "Mature", "CallExplicit", "CallExplicit", "SelfDestructFunded", "ConStake", "ConStake", "ConUnstake", "ConUnstake", "ConAddStake", "ConUnstakeAll", "Refund"}
 	for i := 0; i < *nRandom; i++ {
 		ops := make([]ledgerops.AbsOp, 0, *length)
 		for j := 0; j < *length; j++ {
 			o := ledgerops.AbsOp{Op: kinds[rng.Intn(len(kinds))], A: 1 + rng.Intn(3), B: 1 + rng.Intn(3), V: rng.Intn(3)}
 			if o.Op == "CallExplicit" {
 				o.V = rng.Intn(54)
+			}
+			if o.Op == "ConUnstake" || o.Op == "ConAddStake" {
+				o.V = rng.Intn(7)
 			}
 			ops = append(ops, o)
 		}
